@@ -267,6 +267,10 @@ def r06_4(ctx):
             if isinstance(q, ast.Attribute) and q.value is nnode and q.attr not in ("acquire", "release", "_waiters", "_value", "__aenter__", "__aexit__") \
                     and isinstance(q.ctx, ast.Load):
                 ok = True  # a read-only query (locked(), value, num_waiting ...): diagnostics, not slot management
+            if isinstance(q, ast.Call) and isinstance(q.func, ast.Attribute) and q.func.attr == "enter_async_context" and any(
+                    isinstance(a_, ast.Call) and a_.func is nnode for a_ in q.args):
+                # entered through a contextlib.AsyncExitStack: the same acquire / release-on-every-exit pairing as `async with`
+                ok = g.cls is not None and "ProtocolHandler" in g.cls.base_names() + [g.cls.name]
         if not ok and g.cls is not None and "ProtocolHandler" in g.cls.base_names() + [g.cls.name] and acquire_release_use(g.node, nnode):
             ok = True  # `await sem.acquire(priority)` + try/finally `sem.release()`: the explicit spelling of `async with sem(priority=...)`
         ctx.require(ok, f"semaphore-use:{g.short}", f"send semaphore used in {g.short} line {nnode.lineno} other than `async with` in command()",
